@@ -81,6 +81,47 @@ theorem par_zerofier_spec (T threads : Nat) (roots z : List K)
     (h : parZerofierWith FK E T threads roots = some z) : denote z = zpoly roots :=
   parZerofierWith_sound root hE T threads roots z h
 
+/-- **Tree order.** `ZerofierTree::new_from_domain` (leaf chunks, padding to a power of two, the deque loop popping
+    from the back and pushing to the front), for every leaf size `RT ≥ 1` and cut-off `T ≥ 2`: returns a tree whose
+    points read left to right are the domain in input order and whose every node stores `∏ (X - x)` over the
+    points below it; in particular the root zerofier is `∏ (X - xᵢ)` over the whole domain. -/
+theorem zerofier_tree_in_order (RT T : Nat) (hRT : 0 < RT) (hT : 2 ≤ T) (domain : List K) :
+    ∃ t, newFromDomainWith FK E RT T domain = some t ∧ t.points = domain ∧ t.Good ∧
+      denote (t.zerofier FK) = zpoly domain := by
+  obtain ⟨t, ht, hg, hp⟩ := newFromDomainWith_total root hE RT T hRT hT domain
+  exact ⟨t, ht, hp, hg, by rw [hg.zerofier root, hp]⟩
+
+/-- … and for *every* parameter value, whatever tree is returned has these properties. -/
+theorem zerofier_tree_sound (RT T : Nat) (domain : List K) (t : ZTree K)
+    (h : newFromDomainWith FK E RT T domain = some t) : t.points = domain ∧ t.Good :=
+  ⟨(newFromDomainWith_sound root hE RT T domain t h).2, (newFromDomainWith_sound root hE RT T domain t h).1⟩
+
+/-- `divide_and_conquer_batch_evaluate` over a correct tree returns the evaluations in the order of the points
+    (given `reduce` returns the remainder). -/
+theorem divide_and_conquer_batch_evaluate_spec (p : List K) (t : ZTree K) (ht : t.Good) :
+    dcEval FK E p t = some (t.points.map (fun x => (denote p).eval x)) :=
+  dcEval_spec root hE p t ht
+
+omit hE in
+/-- `iterative_batch_evaluate` -/
+theorem iterative_batch_evaluate_spec (p domain : List K) :
+    iterativeBatchEvaluate FK p domain = domain.map (fun x => (denote p).eval x) := by
+  unfold iterativeBatchEvaluate
+  exact List.map_congr_left (fun x _ => eval_denote root p x)
+
+/-- **Bulk evaluation.** `batch_evaluate` — zero polynomial, reduce-then-evaluate and tree strategy, selected by
+    any ratio `R` — returns the Horner evaluations in input order, for every polynomial, every domain
+    (repetitions, empty), every leaf size `RT ≥ 1` and cut-off `T ≥ 2`. -/
+theorem batch_evaluate_spec (R RT T : Nat) (hRT : 0 < RT) (hT : 2 ≤ T) (p domain : List K) :
+    batchEvaluateWith FK E R RT T p domain = some (domain.map (fun x => (denote p).eval x)) :=
+  batchEvaluateWith_total root hE R RT T hRT hT p domain
+
+/-- `par_batch_evaluate`, **every thread count**: whatever is returned are the evaluations in input order. -/
+theorem par_batch_evaluate_spec (R RT T threads : Nat) (p domain out : List K)
+    (h : parBatchEvaluateWith FK E R RT T threads p domain = some out) :
+    out = domain.map (fun x => (denote p).eval x) :=
+  parBatchEvaluateWith_sound root hE R RT T threads p domain out h
+
 end
 
 /-- the thresholds the theorems are instantiated with by the driver come from the source -/
